@@ -1957,6 +1957,50 @@ fn segcs_overflow() -> serde_json::Value {
     }
 }
 
+// C10: Dot against NumPy's dot: result[i.., k.., m] = sum_j a[i.., j] * b[k.., j, m]
+fn dot_ref(seed: u64) -> serde_json::Value {
+    use ciphercore_base::graphs::util::simple_context;
+    let mut rng = Rng(seed | 1);
+    let mut tried = 0u64;
+    let shapes: Vec<(Vec<u64>, Vec<u64>)> = vec![(vec![3], vec![3]), (vec![2, 3], vec![3, 4]), (vec![3], vec![3, 2]), (vec![2, 3], vec![3]), (vec![2, 3], vec![5, 3, 4]), (vec![4, 2, 3], vec![3, 2]),
+        (vec![2, 2, 3], vec![4, 3, 2]), (vec![3], vec![2, 3, 2]), (vec![2, 2, 3], vec![3]), (vec![2, 3], vec![2, 2, 3, 2])];
+    for st in [INT32, UINT64, BIT, UINT128] {
+        let m = st.get_modulus();
+        for (s0, s1) in &shapes {
+            tried += 1;
+            let n0: u64 = s0.iter().product(); let n1: u64 = s1.iter().product();
+            let gen = |rng: &mut Rng, n: u64| -> Vec<u128> { (0..n).map(|_| { let x = ((rng.next() as u128) << 64) | rng.next() as u128; match m { Some(mm) => x % mm, None => x } }).collect() };
+            let a = gen(&mut rng, n0); let b = gen(&mut rng, n1);
+            let (t0, t1) = (array_type(s0.clone(), st), array_type(s1.clone(), st));
+            let r = catch_unwind(AssertUnwindSafe(|| -> Result<Vec<u128>> {
+                let c = simple_context(|g| { let x = g.input(t0.clone())?; let y = g.input(t1.clone())?; x.dot(y) })?;
+                let rt = c.get_main_graph()?.get_output_node()?.get_type()?;
+                let out = random_evaluate(c.get_main_graph()?, vec![Value::from_flattened_array(&a, st)?, Value::from_flattened_array(&b, st)?])?;
+                if rt.is_scalar() { Ok(vec![out.to_u128(st)?]) } else { out.to_flattened_array_u128(rt) }
+            }));
+            let got = match r { Ok(Ok(x)) => x, Ok(Err(e)) => return json!({"found": true, "routine": "dot_ref", "property": "C10", "input": {"shapes": [s0, s1], "scalar_type": format!("{}", st)}, "observed": format!("error: {}", e)}),
+                Err(_) => return json!({"found": true, "routine": "dot_ref", "property": "C10", "input": {"shapes": [s0, s1], "scalar_type": format!("{}", st)}, "observed": "panic"}) };
+            let reduce = |x: u128| match m { Some(mm) => x % mm, None => x };
+            let mid = s0[s0.len() - 1];
+            let outer: u64 = s0[..s0.len() - 1].iter().product();                                   // i..
+            let (kk, mm_): (u64, u64) = if s1.len() == 1 { (1, 1) } else { (s1[..s1.len() - 2].iter().product(), s1[s1.len() - 1]) };   // k.., m
+            let mut want: Vec<u128> = vec![];
+            for i in 0..outer { for k in 0..kk { for c in 0..mm_ {
+                let mut acc: u128 = 0;
+                for j in 0..mid { let x = a[(i * mid + j) as usize]; let y = if s1.len() == 1 { b[j as usize] } else { b[((k * mid + j) * mm_ + c) as usize] };
+                    let pm = match m { Some(q) => (x % q) * (y % q) % q, None => x.wrapping_mul(y) }; acc = reduce(acc.wrapping_add(pm)); }
+                want.push(acc);
+            } } }
+            let got: Vec<u128> = got.into_iter().map(reduce).collect();
+            if got != want {
+                return json!({"found": true, "routine": "dot_ref", "property": "C10", "input": {"shapes": [s0, s1], "scalar_type": format!("{}", st)},
+                    "expected": want.iter().take(12).map(|x| x.to_string()).collect::<Vec<_>>(), "observed": got.iter().take(12).map(|x| x.to_string()).collect::<Vec<_>>(), "what": "Dot evaluated by SimpleEvaluator vs. NumPy's dot (last axis of a with the second-to-last axis of b)"});
+            }
+        }
+    }
+    json!({"found": false, "routine": "dot_ref", "tried": tried})
+}
+
 fn main() {
     let args: Vec<String> = std::env::args().collect();
     let seed: u64 = args.get(2).and_then(|s| s.parse().ok()).unwrap_or(0);
@@ -1977,6 +2021,7 @@ fn main() {
         Some("share_roundtrip") => share_roundtrip(seed),
         Some("prng_stream") => prng_stream(seed),
         Some("layout_ref") => layout_ref(seed),
+        Some("dot_ref") => dot_ref(seed),
         Some("segcs_overflow") => segcs_overflow(),
         Some("ctx_corrupt_sweep") => ctx_corrupt_sweep(seed),
         Some("name_collision") => name_collision(seed),
